@@ -3,11 +3,12 @@
    history of sites (newest first, the current call at the head) is h returns NULL.  Every allocation site of iwhmap.c
    asks the oracle in code order; with the oracle `nofail` every function below reduces to the function of Hmap.v
    (Hmap_af_proofs.v: *_nofail), so all theorems about Hmap.v stay as they are.
-   The flag `code` selects the failure path of _rehash() and of iwhmap_rename():
-     code = true   the code as it is: `fail:` releases the entry arrays of the LIVE old buckets before the one being copied
+   The flag `code` selects the failure path of _rehash() and of iwhmap_rename().  The CURRENT code is code = false (fixes a8b271d and
+   a22623c are committed; driver and default theorems use it); code = true is kept for the refutation theorems:
+     code = true   the code BEFORE a8b271d / a22623c: `fail:` releases the entry arrays of the LIVE old buckets before the one being copied
                    (a_dang: their indices; any later access is h_fault, the release in clear/destroy a double free), the
                    arrays of the half-built table leak (a_leak); iwhmap_rename that cannot add key_new drops the value (a_lost);
-     code = false  the repaired code (fixes/cont-hmap-rehash-fail.diff, fixes/cont-hmap-rename-fail.diff): the new table is
+     code = false  the code since a8b271d / a22623c (fixes/cont-hmap-rehash-fail.diff, fixes/cont-hmap-rename-fail.diff): the new table is
                    released, the map stays as it was; rename hands the value to kv_free_fn(0, val).
    No proofs here. *)
 Require Import ZArith List Bool Lia.
@@ -230,7 +231,7 @@ Definition hremove_f (a : amap) (k : K) : amap * bool :=
   end.
 
 (* iwhmap_rename; the bool is rc == 0.  When _entry_add(key_new) fails the old entry is already gone:
-   the code forgets `val`, the repaired code reports it to kv_free_fn(0, val). *)
+   the old code (flag code = true) forgot `val`, the code since a22623c reports it to kv_free_fn(0, val). *)
 Definition hrename_f (a : amap) (kold knew : K) : amap * bool :=
   let m := a_m a in
   let h := hashf kold in
